@@ -130,6 +130,27 @@ func bstProp[T helper.Number](name string) engine.AnyProp {
 		ID: "C17", Subject: "Bst/" + name,
 		Gen: func(t *rapid.T) Case[T] {
 			n := rapid.IntRange(0, 40).Draw(t, "n")
+			if rapid.IntRange(0, 15).Draw(t, "crowded") == 7 {
+				// a crowded multiset: one value inserted hundreds of times (more occurrences than the
+				// narrow element types can count), then removed again one by one
+				v, w := genValue(t, alpha), genValue(t, alpha)
+				k := rapid.SampledFrom([]int{120, 130, 260, 300}).Draw(t, "copies")
+				var ops []Op[T]
+				for i := 0; i < k; i++ {
+					ops = append(ops, Op[T]{K: "ins", V: v})
+					if i%50 == 49 {
+						ops = append(ops, Op[T]{K: "ins", V: w}, Op[T]{K: "max"}, Op[T]{K: "min"})
+					}
+				}
+				for i := 0; i < k-1; i++ {
+					ops = append(ops, Op[T]{K: "rem", V: v})
+					if i%40 == 39 {
+						ops = append(ops, Op[T]{K: "has", V: v}, Op[T]{K: "max"}, Op[T]{K: "min"})
+					}
+				}
+				ops = append(ops, Op[T]{K: "has", V: v}, Op[T]{K: "rem", V: v}, Op[T]{K: "has", V: v}, Op[T]{K: "rem", V: v})
+				return Case[T]{Ops: ops}
+			}
 			ops := make([]Op[T], n)
 			for i := range ops {
 				k := rapid.SampledFrom([]string{"ins", "ins", "ins", "rem", "rem", "has", "min", "max"}).Draw(t, "k")
@@ -382,6 +403,21 @@ func windowProp[T helper.Number](name string) engine.AnyProp {
 		Gen: func(t *rapid.T) WinCase[T] {
 			c := WinCase[T]{Period: rapid.IntRange(1, 6).Draw(t, "period")}
 			n := rapid.IntRange(0, 24).Draw(t, "n")
+			if rapid.IntRange(0, 15).Draw(t, "quiet") == 7 {
+				// a long window over a quiet series: hundreds of equal values at once (more than
+				// the narrow element types can count)
+				c.Period = rapid.SampledFrom([]int{100, 130, 200, 300}).Draw(t, "long_period")
+				n = c.Period + rapid.IntRange(0, 80).Draw(t, "extra")
+				base, other := genValue(t, alpha), genValue(t, alpha)
+				for i := 0; i < n; i++ {
+					v := base
+					if rapid.IntRange(0, 9).Draw(t, "dip") == 4 {
+						v = other
+					}
+					c.Values = append(c.Values, v)
+				}
+				return c
+			}
 			for i := 0; i < n; i++ {
 				c.Values = append(c.Values, genValue(t, alpha))
 			}
